@@ -204,6 +204,16 @@ func init() {
 	add(word("\"$(b\nc)\"", wDQ(wCS(true, simpleCmd("b"), simpleCmd("c")))))
 	add(word("$(($(b\nc) + 1))", wAE(wCS(true, simpleCmd("b"), simpleCmd("c")), wLit("+"), wLit("1"))))
 	add(word("${v:-$(b\nc)}", wPEB("v", ":-", ast.Word{wCS(true, simpleCmd("b"), simpleCmd("c"))})))
+	// literal text directly after a substitution that ends on a later line (the nested lexer hands its position back)
+	add(word("$(b\nc)d", wCS(true, simpleCmd("b"), simpleCmd("c")), wLit("d")))
+	add(word("`b\nc`d", wCS(false, simpleCmd("b"), simpleCmd("c")), wLit("d")))
+	add(word("\"x $(b\nc) y\"", wDQ(wLit("x "), wCS(true, simpleCmd("b"), simpleCmd("c")), wLit(" y"))))
+	add(word("$((1 +\n2))d", wAE(wLit("1"), wLit("+"), wLit("2")), wLit("d")))
+	add(word("x=$(b\nc)/d", wLit("x="), wCS(true, simpleCmd("b"), simpleCmd("c")), wLit("/d")))
+	// "$@" as the word of an operator (no positional parameters: zero fields inside an expansion)
+	add(word("${v:-\"$@\"}", wPEB("v", ":-", ast.Word{wDQ(wPE("@"))})))
+	add(word("${v:+\"$@\"}", wPEB("v", ":+", ast.Word{wDQ(wPE("@"))})))
+	add(word("\"${w-\"$@\"}\"", wDQ(wPEB("w", "-", ast.Word{wDQ(wPE("@"))}))))
 	add(sym{text: "((1 +\n2))", kind: kArith, parts: func() ast.Word { return ast.Word{wLit("1"), wLit("+"), wLit("2")} }})
 	add(word("x=$v", wLit("x="), wPE("v")))
 	add(word("x='q'", wLit("x="), wSQ("q")))
